@@ -550,7 +550,7 @@ impl Property for C13 {
     }
     fn budget(&self, tier: Tier) -> (u32, usize) {
         match tier {
-            Tier::Quick => (14_000, 8),
+            Tier::Quick => (30_000, 8),
             Tier::Thorough => (600_000, 16),
         }
     }
